@@ -2,8 +2,9 @@
 # Builds the simulator from /repo's current working tree with the verif hooks enabled.
 set -e
 export GOFLAGS=-mod=mod GOPROXY=off GOSUMDB=off GOTOOLCHAIN=local CGO_ENABLED=1
-cd /verif/sim
+V="${VERIF_DIR:-/verif}"
+cd "$V/sim"
 { sed '1s/.*/module verifsim/' /repo/go.mod; echo; echo 'require github.com/rigochain/rigo-go v0.0.0'; echo 'replace github.com/rigochain/rigo-go => /repo'; } > go.mod.new
 if ! cmp -s go.mod.new go.mod; then mv go.mod.new go.mod; else rm go.mod.new; fi
 cp /repo/go.sum go.sum
-go build -tags verif -o /verif/bin/simchk ./cmd/simchk
+go build -tags verif -o "$V/bin/simchk" ./cmd/simchk
